@@ -532,8 +532,18 @@ struct Scenario {
 }
 
 fn gen_scenario(rng: &mut Rng, std: &Module, w: &mut CaseWriter, with_fault: bool) -> Scenario {
-    let nh = rng.weighted(&[2, 4, 4, 3, 2, 1]);
+    // "thin" scenarios: every function of the chain alone in its own module with exactly one top-level card, the bare
+    // argument-less call of the next one (no fillers, no wrapping, no padding functions): adjacent functions of the
+    // compile order then have equal card indices in different namespaces
+    let thin = with_fault && rng.chance(1, 5);
+    if thin { w.count("scenario.thin"); }
+    let nh = if thin { 2 + rng.below(3) as usize } else { rng.weighted(&[2, 4, 4, 3, 2, 1]) };
     let fault = if with_fault { pick_fault(rng) } else { Fault::TimeoutLoop };
+    let thin_paths: Vec<Vec<String>> = {
+        let mut v: Vec<Vec<String>> = PATHS.iter().filter(|p| !p.is_empty()).map(|p| p.iter().map(|s| s.to_string()).collect()).collect();
+        for i in (1..v.len()).rev() { let j = rng.below(i as u64 + 1) as usize; v.swap(i, j); }
+        v
+    };
     let mut k = 0usize;
     // function table: F0 = main at the root, F1..Fnh
     let mut paths: Vec<Vec<String>> = vec![vec![]];
@@ -559,8 +569,10 @@ fn gen_scenario(rng: &mut Rng, std: &Module, w: &mut CaseWriter, with_fault: boo
             20 => Hop::StdSortedByKey,
             _ => Hop::StdMinByKey,
         };
+        if thin { hop = [Hop::CallAbs, Hop::CallAbs, Hop::CallImportFn, Hop::CallImportMod][rng.below(4) as usize]; }
         let from = paths[i].clone();
         let mut to: Vec<String> = rng.pick(&PATHS).iter().map(|s| s.to_string()).collect();
+        if thin { to = thin_paths[i % thin_paths.len()].clone(); }
         if hop == Hop::CallBare { to = from.clone(); }
         if hop == Hop::CallImportMod && to.is_empty() { hop = Hop::CallAbs; }
         if hop == Hop::CallImportFn && to == from { hop = Hop::CallBare; }
@@ -572,7 +584,7 @@ fn gen_scenario(rng: &mut Rng, std: &Module, w: &mut CaseWriter, with_fault: boo
         paths.push(to);
         names.push(format!("f{}", i + 1));
     }
-    let arities: Vec<usize> = std::iter::once(0).chain(hops.iter().map(|h| h.callee_arity(rng))).collect();
+    let arities: Vec<usize> = std::iter::once(0).chain(hops.iter().map(|h| if thin { 0 } else { h.callee_arity(rng) })).collect();
     let abs = |i: usize| -> String {
         let mut s = paths[i].join(".");
         if !s.is_empty() { s.push('.'); }
@@ -584,10 +596,10 @@ fn gen_scenario(rng: &mut Rng, std: &Module, w: &mut CaseWriter, with_fault: boo
     let mut chain: Vec<(Result<u64, Loc>, bool)> = vec![];
     let mut inner: Vec<Card> = {
         let mut cards = vec![];
-        for _ in 0..rng.below(3) { cards.push(filler(rng, &mut k)); }
+        for _ in 0..(if thin { 0 } else { rng.below(3) }) { cards.push(filler(rng, &mut k)); }
         if with_fault {
             let f = fault.card();
-            cards.push(wrap(rng, f, &mut k, w, false));
+            cards.push(if thin { f } else { wrap(rng, f, &mut k, w, false) });
             if fault == Fault::CallStack {
                 // the helper lives in the module of the innermost function, or at the root
                 let hp = if rng.chance(1, 2) { paths[nh].clone() } else { vec![] };
@@ -599,7 +611,7 @@ fn gen_scenario(rng: &mut Rng, std: &Module, w: &mut CaseWriter, with_fault: boo
         } else {
             cards.push(sg("done", int(1)));
         }
-        for _ in 0..rng.below(2) { cards.push(filler(rng, &mut k)); }
+        for _ in 0..(if thin { 0 } else { rng.below(2) }) { cards.push(filler(rng, &mut k)); }
         cards
     };
     for i in (0..nh).rev() {
@@ -673,14 +685,14 @@ fn gen_scenario(rng: &mut Rng, std: &Module, w: &mut CaseWriter, with_fault: boo
         chain.push((Ok(tag), false));
         let hop_card = tagged(hop_card, tag);
         let mut cards = vec![];
-        for _ in 0..rng.below(3) { cards.push(filler(rng, &mut k)); }
+        for _ in 0..(if thin { 0 } else { rng.below(3) }) { cards.push(filler(rng, &mut k)); }
         cards.extend(pre);
-        cards.push(wrap(rng, hop_card, &mut k, w, false));
-        for _ in 0..rng.below(2) { cards.push(filler(rng, &mut k)); }
+        cards.push(if thin { hop_card } else { wrap(rng, hop_card, &mut k, w, false) });
+        for _ in 0..(if thin { 0 } else { rng.below(2) }) { cards.push(filler(rng, &mut k)); }
         inner = cards;
     }
     // main, with padding functions around it so that function indices vary
-    let npad = rng.below(3) as usize;
+    let npad = if thin { 0 } else { rng.below(3) as usize };
     for p in 0..npad {
         let path: Vec<String> = rng.pick(&PATHS).iter().map(|s| s.to_string()).collect();
         let at = mb.at(&path);
